@@ -80,5 +80,29 @@ def run(ck: Check):
             cs.obs(tr, "shrink_ratio", max(errs[1], floor) / max(errs[0], 1e-300))
             if len(ck.cov["samples"]) < 8 and scale != 1.0:
                 ck.sample({"accuracy_case": label, "max_error": errs[0], "error_over_tolerance": errs[0] / tol_eff, "error_at_tol_over_1000": errs[1]})
+    # components of very different magnitude: the tolerance is per component (atol + rtol |y_i|).  A slow oscillator of amplitude
+    # 1e3 next to a fast one (frequency 15) of amplitude 1e-3, relative tolerance dominating: each component's error is measured
+    # against ITS OWN scale.
+    def two_scale(tq, y):
+        return np.array([y[1], -y[0], 15.0 * y[3], -15.0 * y[2]])
+    sysT = create_rhs_system(two_scale, 4, "two-scale oscillators")
+    tq = np.linspace(0.0, 6.0, 161)
+    exT = np.column_stack([1e3 * np.cos(tq), -1e3 * np.sin(tq), 1e-3 * np.cos(15 * tq), -1e-3 * np.sin(15 * tq)])
+    for order, rtol in itertools.product((5, 8), (1e-6, 1e-9)):
+        atol = 1e-15
+        label = f"two-scale-generic|order={order}|rtol={rtol:g}|atol={atol:g}"
+        tr = cs.trace(label, {"componentwise_error_over_tolerance": 30}, {"problem": "two-scale-generic", "order": order, "rtol": rtol, "atol": atol, "scale": 0})
+        ck.count(("accuracy", label), True)
+        try:
+            sol = AdaptiveRK(order=order, rtol=rtol, atol=atol).integrate(sysT, np.array([1e3, 0.0, 1e-3, 0.0]), tq)
+        except Exception as exn:  # noqa
+            ck.violation(f"AdaptiveRK|two-scale-generic|order={order}|raises:{type(exn).__name__}", f"{label}: {str(exn)[:160]}", {"case": label})
+            cs.traces.remove(tr)
+            continue
+        err = np.max(np.abs(np.asarray(sol.states) - exT), axis=0)
+        comp = err / (atol + rtol * np.max(np.abs(exT), axis=0))
+        cs.obs(tr, "componentwise_error_over_tolerance", float(np.max(comp)))       # observed 12 .. 150 (global error over 6 time units)
+        if len(ck.cov["samples"]) < 12:
+            ck.sample({"accuracy_case": label, "error_over_own_tolerance_per_component": comp.tolist()})
     cs.decide(key_fn=lambda tr, n: f"AdaptiveRK|{tr['data']['problem']}|order={tr['data']['order']}|{n}")
     cs.selftest()
